@@ -179,6 +179,21 @@ func structEdits(b *Built, f *refxz.File, r *sim.Rng) []structEdit {
 				refxz.Reseal(img, bhSpan)
 				add("nonzero-header-padding", btag, img)
 			}
+			// a size field whose variable-length integer never ends inside the
+			// header (continuation bit on every byte up to the header's CRC): with
+			// the rest of the file as it was, and with the file ending right
+			// behind that header, or behind four zero bytes after it
+			{
+				img := clone()
+				img[bl.HeaderOffset+1] |= 0x40
+				for q := bl.HeaderOffset + 2; q < bl.DataOffset-4; q++ {
+					img[q] = 0x80 | byte(r.Intn(128))
+				}
+				refxz.Reseal(img, bhSpan)
+				add("block-header-field-overrun", btag, img)
+				add("block-header-field-overrun", btag+", file ends behind the header", append([]byte(nil), img[:bl.DataOffset]...))
+				add("block-header-field-overrun", btag+", four zero bytes and the end of the file behind the header", append(append([]byte(nil), img[:bl.DataOffset]...), 0, 0, 0, 0))
+			}
 			// reserved block flag bits
 			{
 				img := clone()
